@@ -552,10 +552,17 @@ def run(model, col, tier):
                 and _rt(c.args[0], r_env) == f"{fp}.GetType().GetName()" and _rt(c.func.value, r_env) == f"{cp_}[-1]"]
         col.check(bool(resolves) and bool(regs) and min(c.lineno for c in resolves) < min(c.lineno for c in regs), "R10.3", f"{CT}::__RegisterFunction", "parameter types are resolved, then the function is registered under its name", None, CT, reg[1])
     pe = ctv.own_method("_ProcessExpression")
-    t = unparse(pe)
-    i_children = t.find("for c in expr")
-    i_resolve = t.find("expr.ResolveType(scope)")
-    col.check(0 <= i_children < i_resolve, "R10.3", f"{CT}::_ProcessExpression arguments typed before the call is resolved", "children are typed first", "a call is resolved before its arguments are typed", CT, pe)
+    ep_, sp_ = pe.args.args[1].arg, pe.args.args[2].arg
+    typed_first = None
+    for evs_, st_ in paths(pe.body):
+        idx_res = next((i for i, e in enumerate(evs_) if e.kind in ("stmt", "return") and any(
+            isinstance(c, ast.Call) and last_attr(c) == "ResolveType" and unparse(c.func.value) == ep_ and [unparse(a) for a in c.args] == [sp_] for c in ast.walk(e.node))), None)
+        if idx_res is None:
+            continue
+        before = [e for e in evs_[:idx_res] if e.kind == "loop" and isinstance(e.node, ast.For) and unparse(e.node.iter) in (ep_, f"{ep_}.children", f"{ep_}.GetArguments()")
+                  and any(isinstance(c, ast.Call) and last_attr(c) == "_ProcessExpression" and c.args and unparse(c.args[0]) == unparse(e.node.target) for s_ in e.node.body for c in ast.walk(s_))]
+        typed_first = bool(before) if typed_first is None else (typed_first and bool(before))
+    col.check(typed_first is True, "R10.3", f"{CT}::_ProcessExpression arguments typed before the call is resolved", "children are typed first", "a call is resolved before its arguments are typed", CT, pe)
     # ---------------- R10.4 ------------------------------------------------------
     # every constant a path of Function.Match / Match returns: rejections are negative, and 0 means 'exact match' only
     for f_, nm in ((fm, "Function.Match"),):
